@@ -59,7 +59,7 @@ ASSUMPTIONS = [
     "the restarted runner is configured exactly as the crashed one "
     "(except in the 'guard' and 'extend' classes)",
 ]
-QUICK_BUDGET_S = 100
+QUICK_BUDGET_S = 300
 
 PREFIXES = ["open", "zero", "one", "half", "allbutone", "full"]
 
